@@ -189,6 +189,7 @@ type Ex struct {
 	inOld bool
 	// resolve is a fallback for program variables (loop invariants)
 	resolve func(name string) *T
+	resolveAddr func(name string) *T
 	depth   int
 	qdepth  int
 	letCache map[string]*T
@@ -492,6 +493,14 @@ func (x *Ex) tr(e ast.Expr, want *Sort) *T {
 		case token.XOR:
 			a := x.tr(v.X, want)
 			return mk(sapp("bvnot", a.S), a.Sort)
+		case token.AND:
+			// &name: the address of an address-taken local variable
+			if id, ok := v.X.(*ast.Ident); ok && x.resolveAddr != nil {
+				if t := x.resolveAddr(id.Name); t != nil {
+					return t
+				}
+			}
+			fail("cannot take the address of this expression in a specification")
 		}
 		fail("unsupported unary operator %s", v.Op)
 	case *ast.BinaryExpr:
@@ -1102,6 +1111,12 @@ func (x *Ex) call(v *ast.CallExpr, want *Sort) *T {
 			ref = sapp("sl_arr", a.S)
 		}
 		return mk(sapp("and", sapp(">=", ref, oldNext.S), sapp("<", ref, x.cur.next().S)), sBool)
+	case "byteStr":
+		// the one-byte string holding c
+		argN(1)
+		c := x.tr(v.Args[0], sU8)
+		r := mk(sapp("sbyte", c.S), sStr)
+		return r
 	case "arrStore":
 		// arrStore(a, k, v): the array a with index k set to v
 		argN(3)
